@@ -9,7 +9,7 @@ from ..core import Disc, Subcheck, exc_detail, exc_key
 
 PROPERTY_ID = 'C16'
 LEVEL = 'exploration'
-RULE = ('histories of export / re-export (another object at an exported path) / unexport on DBusObjectHandler (recording '
+RULE = ('The pool also holds path elements that start with a digit (/a/7, /a/2nd/x) and /_. histories of export / re-export (another object at an exported path) / unexport on DBusObjectHandler (recording '
         'connection) over a path pool built to contain the traps: / /a /a/b /a/bc /a/b/c /a/b/c/d /ab /a_b /b plus two '
         'never-exported paths; objects are of three classes (one interface; two interfaces incl. a non-emitting typed '
         'property, and false in a boolean context through __len__; a subclass that adds a property to the inherited interface and brings a second interface) with '
@@ -30,7 +30,8 @@ RULE = ('histories of export / re-export (another object at an exported path) / 
         'a registered adapter.')
 ASSUMPTIONS = ['properties are assigned before export; only exported paths are unexported']
 
-POOL = ['/', '/a', '/a/b', '/a/bc', '/a/b/c', '/a/b/c/d', '/ab', '/a_b', '/b']
+POOL = ['/', '/a', '/a/b', '/a/bc', '/a/b/c', '/a/b/c/d', '/ab', '/a_b', '/b',
+        '/a/7', '/a/2nd/x', '/_']      # path elements may start with a digit or be a lone underscore
 NEVER = ['/a/b/x', '/zz']
 SMALL = ['/', '/a', '/a/b', '/a/bc', '/a/b/c', '/ab']
 PROPS = 'org.freedesktop.DBus.Properties'
